@@ -9,8 +9,8 @@
   `ocp_no_progress_counter`: the counter handed to the chain is `npRun` of the "storage vector unchanged" flags
   between consecutive progress callbacks.  `ocp_result_meaning_fuelOK`: the same facts over ordered fields
   with the explicit fuel bound `FuelOK` instead of `fuelOut = false`.
-  All statements describe the real solver for `max_no_progress ≥ 1` only (at 0 the C++ divides by zero:
-  `Props/C06.no_progress_counts_consecutive_guarded`).
+  (`max_no_progress = 0`: since /repo commit f7343661f the update tests every iteration instead of dividing
+  by zero; the generated statement is a model of the code for every `max_no_progress`.)
 -/
 import Alpaqa.Proofs.OcpLoop
 import Alpaqa.Proofs.OcpLs
@@ -234,9 +234,9 @@ theorem mainLoop_np (O : Oracles α) (dir : Dir D α) (P : Prob α) (pr : Params
     records ε, status, `k`, the counter and the tick of that check): the counter handed to
     `check_all_stop_conditions` is `npRun max_no_progress 0 0` of the flags "storage vector unchanged"
     between *consecutive progress callbacks* (`cbFlags callbacks`, one per iteration), and the returned
-    status is the generated chain evaluated with that counter.  Hence (for `max_no_progress ≥ 1`, where the
-    generated update is the C++ statement) `NoProgress` is returned only after more than
-    `max_no_progress` consecutive trailing iterations whose reported iterates are all equal. -/
+    status is the generated chain evaluated with that counter.  Hence `NoProgress` is returned only after
+    more than `max_no_progress` consecutive trailing iterations whose reported iterates are all equal (for
+    every `max_no_progress`, 0 included: `Props/C06.noProgressUpdate_spec`). -/
 theorem ocp_no_progress_counter (O : Oracles α) (dir : Dir D α) (P : Prob α) (d0 : D)
     (pr : Params α) (stop : Nat → Bool) (oot : Bool) (u0 y mu errz0 gV gQ : Vec α) (gS e0 : α)
     (eps : α) (status : SolverStatus) (k np tick : Nat)
@@ -248,7 +248,7 @@ theorem ocp_no_progress_counter (O : Oracles α) (dir : Dir D α) (P : Prob α) 
     (run O dir P d0 pr stop oot u0 y mu errz0 gV gQ gS e0).stats.eps = eps ∧
     (run O dir P d0 pr stop oot u0 y mu errz0 gV gQ gS e0).stats.status = status ∧
     status = statusChainOcp pr.tolerance pr.maxIter pr.maxNoProgress k eps np oot (stop tick) ∧
-    (1 ≤ pr.maxNoProgress → status = .NoProgress →
+    (status = .NoProgress →
       pr.maxNoProgress < ((cbFlags (run O dir P d0 pr stop oot u0 y mu errz0 gV gQ gS e0).callbacks).reverse.takeWhile
         (· = true)).length) := by
   unfold run at hl ⊢
@@ -268,11 +268,11 @@ theorem ocp_no_progress_counter (O : Oracles α) (dir : Dir D α) (P : Prob α) 
     simp only [] at hm
     obtain ⟨h1, h2, h3, h4, h5, h6⟩ := hm
     refine ⟨h1, h2, h5.symm, h3.symm, h4.symm, h6, ?_⟩
-    intro hM hnp
+    intro hnp
     rw [hnp] at h6
     have hgt := Props.C06.noProgress_only_if pr.tolerance pr.maxIter pr.maxNoProgress k eps np oot
       (stop tick) h6.symm
-    have hle := Props.C06.no_progress_counts_consecutive_guarded pr.maxNoProgress hM
+    have hle := Props.C06.no_progress_counts_consecutive pr.maxNoProgress
       (cbFlags (mainLoop O dir P pr stop oot u0 y mu errz0 (pr.maxIter + 2) s).callbacks) 0
     rw [← h1] at hle
     omega
@@ -350,7 +350,12 @@ example : 3 = Props.C06.npRun prN.maxNoProgress 0 0 (cbFlags rN.callbacks) ∧
   have hl : rN.lastHead = some (rN.stats.eps, .NoProgress, 3, 3, 73) := by decide +kernel
   have h := ocp_no_progress_counter OA dirZero PA () prN (stopAt none) false [1, 1/2] [] [] [] [] [] 0 0
     _ _ _ _ _ hl
-  exact ⟨h.1, h.2.2.2.2.2.2 (by decide) rfl⟩
+  exact ⟨h.1, h.2.2.2.2.2.2 rfl⟩
+
+/-- `max_no_progress = 0` (the repaired update tests every iteration): `NoProgress` right after the first
+    iteration that left the iterate unchanged -/
+example : rN0.stats.status = .NoProgress ∧ rN0.stats.iterations = 1 ∧ cbFlags rN0.callbacks = [true] := by
+  decide +kernel
 
 end run_examples
 
